@@ -77,6 +77,11 @@ func zzCheckFormat(src, what string, run bool) string {
 		return ""
 	}
 	out := prog.Format()
+	again := prog.Format()
+	if again != out {
+		zzLog("formatting the same parsed program twice (" + what + ")\n--- first\n" + out + "\n--- second\n" + again)
+	}
+	zzAssert(again == out, "C07/C08: formatting the same parsed program again gives the same text (formatting does not change the program it formats)")
 	// C06: only whitespace changes
 	a, b := zzTokString(zzTokens(src)), zzTokString(zzTokens(out))
 	if a != b {
@@ -280,7 +285,7 @@ func zzFmtGen(cfg *zzGenCfg) {
 	comments := lay == 1
 	b1 := 1 + lay
 	plain := gp.render(zzLayout{blank: 1, comments: comments})
-	messy := gp.render(zzLayout{extraSpace: true, blank: b1, tab: true, comments: comments})
+	messy := gp.render(zzLayout{extraSpace: true, blank: b1, tab: true, comments: comments, trail: true, crlf: lay == 2})
 	f1 := zzCheckFormat(plain, "generated plain", false)
 	f2 := zzCheckFormat(messy, "generated messy", true)
 	zzA6(f1 != "" && f2 != "", "C06 gen: generated programs are accepted")
@@ -527,5 +532,49 @@ func ZZC06Multi() {
 	}
 	zzAssert(out != "", "C06 multi: a multi-line literal of elements, comments and blank lines is accepted in every position")
 	zzReach("multi-ok")
+	zzWitness("end")
+}
+
+// ZZC06Groups: parenthesised sub-expressions whose operands are literals the
+// type checker rewrites (untyped empty arrays, literals converted to an
+// any-based type) in every typed position: the formatter keeps every
+// parenthesis, so nothing re-associates.
+func ZZC06Groups() {
+	ops := []string{"[]", "[[]]", "[[1]]", "[[1] []]", "x"}
+	a, b := ops[zzChoice("a", len(ops))], ops[zzChoice("b", len(ops))]
+	shape := zzChoice("shape", 6)
+	var expr string
+	switch shape {
+	case 0:
+		expr = "(" + a + " + " + b + ") * 2"
+	case 1:
+		expr = a + " + (" + b + " * 2)"
+	case 2:
+		expr = "(" + a + ") + (" + b + ")"
+	case 3:
+		expr = "((" + a + " + " + b + "))"
+	case 4:
+		expr = "(" + a + " + " + b + ")[:1] + (" + b + ")"
+	case 5:
+		expr = "(" + a + " * 2) + " + b
+	}
+	var src string
+	switch zzChoice("pos", 4) {
+	case 0:
+		src = "x:[][]num\nx = " + expr + "\nprint x\n"
+	case 1:
+		src = "x:[][]num\nw:[][]any\nw = " + strings.ReplaceAll(expr, "x", "[[2]]") + "\nprint w x\n"
+	case 2:
+		src = "x:[][]num\nfunc f p:[][]num\n    print p\nend\nf " + expr + "\n"
+	case 3:
+		src = "x:[][]num\nv:any\nv = " + expr + "\nprint v x (1 + 2) * 3 -(4 - 5)\n"
+	}
+	ev := NewEvaluator(&zzPlat{})
+	if _, err := zzParse(ev, src); err != nil {
+		zzAssume(false) // ill-typed combination: not a formatting input
+	}
+	out := zzCheckFormat(src, "grouped expression", true)
+	zzAssert(out != "", "C06 groups: accepted")
+	zzReach("groups-ok")
 	zzWitness("end")
 }
